@@ -215,6 +215,11 @@ def install():
     for name in list(table):
         orig = table[name]
         M.orig_functions[name] = orig
+        if isinstance(orig, type):
+            # a class exposed as a builtin (dict, str) stays as it is: replacing it by a function would hide what
+            # programs can do with the class object itself (dict["a"] is a types.GenericAlias)
+            M.fn_names[id(orig)] = 'builtin:' + name
+            continue
         w = _wrap_builtin(name, orig)
         M.wrapped_functions[name] = w
         table[name] = w
